@@ -366,8 +366,9 @@ def battery_part(ctx, n):
             continue
         done += 1
         for r in recs:
+            ctx.stats["battery:fresh(probe = declared vo, rs)"] += 1 if r.get("fresh_battery") else 0
             ctx.stats["battery:%s:%s" % ("k=%s" % (r["k"] if not isinstance(r["k"], int) else "deplete"), r["outcome"])] += 1
-            ctx.case(key=["batt", json.dumps(desc, sort_keys=True, default=str), str(r["k"])],
+            ctx.case(key=["batt", json.dumps(desc, sort_keys=True, default=str), str(r["k"]), bool(r.get("fresh_battery"))],
                      nontrivial=r["k"] is not None and r["outcome"] != "ok",
                      sample={"battery": r["battery"], "raise_at": r["k"], "outcome": r["outcome"], "restored": r["restored"]})
             if not r["restored"]:
